@@ -68,13 +68,14 @@ var (
 	tsaRoot, otherTSARoot                *pki.Cert
 	tsaGood, tsaNoEKU, tsaCS, tsaNonCrit *pki.TSA
 	tsaUntrusted, tsaIsCA, tsaKeyEnc     *pki.TSA
+	tsaUnderCS                           *pki.TSA
 )
 
 func setup() {
 	once.Do(func() {
 		now := time.Now()
 		nb, na := now.Add(-60*24*time.Hour), now.Add(60*24*time.Hour)
-		tsaRoot = pki.Mint(pki.Spec{Subject: pki.DefaultLeafSubject("c06 tsa root"), NotBefore: nb, NotAfter: na, IsCA: true, PathLen: 0}, nil)
+		tsaRoot = pki.Mint(pki.Spec{Subject: pki.DefaultLeafSubject("c06 tsa root"), NotBefore: nb, NotAfter: na, IsCA: true, PathLen: 1}, nil)
 		otherTSARoot = pki.Mint(pki.Spec{Subject: pki.DefaultLeafSubject("c06 other tsa root"), NotBefore: nb, NotAfter: na, IsCA: true, PathLen: 0}, nil)
 		mk := func(cn string, parent *pki.Cert, s pki.Spec) *pki.TSA {
 			s.Subject, s.NotBefore, s.NotAfter = pki.DefaultLeafSubject(cn), nb, na
@@ -89,6 +90,11 @@ func setup() {
 		// an end-entity certificate whose key usage is keyEncipherment only
 		tsaIsCA = mk("c06 tsa that is a ca", tsaRoot, pki.Spec{CritTSEKU: true, IsCA: true, PathLen: -1})
 		tsaKeyEnc = mk("c06 tsa keyencipherment", tsaRoot, pki.Spec{CritTSEKU: true, KeyUsage: x509.KeyUsageKeyEncipherment})
+		// a TSA certificate that is right in itself, issued by a CA that the TSA root restricted to
+		// code signing: the path is not a time-stamping path
+		csCA := pki.Mint(pki.Spec{Subject: pki.DefaultLeafSubject("c06 code-signing-only ca"), NotBefore: nb, NotAfter: na, IsCA: true, PathLen: 0, EKU: []x509.ExtKeyUsage{x509.ExtKeyUsageCodeSigning}}, tsaRoot)
+		tsaUnderCS = mk("c06 tsa under a code-signing ca", csCA, pki.Spec{CritTSEKU: true})
+		tsaUnderCS.Extra = []*x509.Certificate{csCA.Cert}
 	})
 }
 
@@ -131,7 +137,7 @@ func model(c Case) verdicts {
 		return v
 	}
 	switch c.Token {
-	case "absent", "garbage", "wrong-imprint", "untrusted-tsa", "no-eku", "codesigning-eku", "ca-as-tsa", "keyenc-only":
+	case "absent", "garbage", "wrong-imprint", "untrusted-tsa", "no-eku", "codesigning-eku", "ca-as-tsa", "keyenc-only", "replayed", "tsa-under-codesigning-ca":
 		v.tsFail = true
 		return v
 	case "noncritical-eku":
@@ -187,8 +193,10 @@ func check(c Case) (string, string, verdicts) {
 	}
 	var issuer *pki.TSA
 	switch c.Token {
-	case "valid", "wrong-imprint":
+	case "valid", "wrong-imprint", "replayed":
 		issuer = tsaGood
+	case "tsa-under-codesigning-ca":
+		issuer = tsaUnderCS
 	case "untrusted-tsa":
 		issuer = tsaUntrusted
 	case "no-eku":
@@ -211,6 +219,19 @@ func check(c Case) (string, string, verdicts) {
 		}
 	} else if c.Token == "garbage" {
 		spec.Timestamp = func(sig []byte) []byte { return []byte("\x30\x03\x02\x01\x01 this is not a timestamp token") }
+	}
+	// "replayed": a genuine countersignature over ANOTHER envelope's signature value - an envelope
+	// that this very process verifies (successfully, where the case allows) before the judged one
+	var replayedFrom []byte
+	if c.Token == "replayed" {
+		var captured []byte
+		first := spec
+		first.Timestamp = func(sig []byte) []byte {
+			captured = tsaGood.Token(pki.TokenSpec{Message: sig, Hash: crypto.SHA256, GenTime: at(c.GenTime), Accuracy: int(c.Accuracy)})
+			return captured
+		}
+		replayedFrom = envb.Build(first)
+		spec.Timestamp = func(sig []byte) []byte { return captured }
 	}
 	env := envb.Build(spec)
 	stores := []string{storeType + ":x"}
@@ -285,6 +306,9 @@ func check(c Case) (string, string, verdicts) {
 	}
 	if err != nil {
 		return "harness", "verifier construction: " + err.Error(), want
+	}
+	if replayedFrom != nil {
+		v.Verify(context.Background(), desc, replayedFrom, notation.VerifierVerifyOptions{ArtifactReference: kit.Reference(desc), SignatureMediaType: c.Format})
 	}
 	if c.Warm != "" {
 		ws := envb.Spec{Format: c.Format, Payload: spec.Payload, ContentType: envb.PayloadType, Scheme: scheme, SigningTime: at(c.SignTime - 60), Chain: ch.X509(), Key: ch.Leaf().Key}
@@ -461,7 +485,7 @@ func drawCase(rt *rapid.T) Case {
 		c.TSAStore = rapid.IntRange(0, 3).Draw(rt, "tsaStore") != 0
 		if c.TSAStore {
 			c.Option = rp.Pick(rt, "option", "", "always", "afterCertExpiry", "afterCertExpiry")
-			c.Token = rp.Pick(rt, "token", "valid", "valid", "valid", "valid", "valid", "absent", "garbage", "wrong-imprint", "untrusted-tsa", "no-eku", "codesigning-eku", "noncritical-eku", "ca-as-tsa", "keyenc-only")
+			c.Token = rp.Pick(rt, "token", "valid", "valid", "valid", "valid", "valid", "absent", "garbage", "wrong-imprint", "untrusted-tsa", "no-eku", "codesigning-eku", "noncritical-eku", "ca-as-tsa", "keyenc-only", "replayed", "replayed", "tsa-under-codesigning-ca")
 			c.Accuracy = rp.Pick(rt, "accuracy", 0, 1, 1, 60, 2*hour)
 			switch edge { // place the token range, not only its centre, at the edge
 			case "nb", "nb+1", "nb-1":
